@@ -54,6 +54,7 @@ def check(case):
         raise Bad('alignment', 'full export is not aligned with the document (C03)')
     split_spines = {a.spines[i][k] for i, k, c in S.cells(doc) if c['t'] in ('*^', '*v')}
     keys, evals = [], 0
+    primed = K.primed_exporter()
 
     def one(ids, tys):
         nonlocal evals
@@ -64,6 +65,8 @@ def check(case):
             kw['spine_types'] = list(tys)
         got = K.dumps(kdoc, **kw)
         evals += 1
+        if evals % 3 == 0 and K.via_primed(primed, kdoc, **kw) != got:
+            raise Bad('exporter-with-a-past', f'spine_ids={ids} spine_types={tys}: an Exporter object that exported other documents and selections before gives a different text than dumps')
         exp = project(full, exp_rows, a, types, None if ids is None else set(ids), None if tys is None else set(tys))
         if got != exp:
             raise Bad('projection', f'spine_ids={ids} spine_types={tys}\n--- full\n{full_text}--- got\n{got}--- expected\n{exp}',
